@@ -1,5 +1,8 @@
 (* C09 — Operators follow Go's precedence, associativity and arithmetic. Theorems only. *)
 From Tpl Require Import Exp.Eval Proofs.ParseSpec Proofs.ParseRoundtrip Proofs.TernaryAssoc Proofs.IntOps Proofs.GoPrec Proofs.FactsAgree.
+From Tpl Require Proofs.FloatSpec.
+From Flocq Require IEEE754.Bits.
+From Coq Require Reals.
 Open Scope N_scope.
 
 (* Grouping: an expression printed with exactly the parentheses that Go's precedence table and
@@ -68,6 +71,56 @@ Print Assumptions div_spec.
 Print Assumptions and_spec.
 Print Assumptions shr_spec.
 Print Assumptions num_bin_ints.
+
+(* ---- float64: the model's + - * / and comparisons ARE IEEE-754 binary64 with round-to-nearest-even (what Go computes),
+   stated against the real numbers with Flocq's specification ([rnd] = round to nearest even in the binary64 format,
+   [fmax] = 2^1024); an integer operand is converted with float64(i) = rnd i, exactly when |i| <= 2^53. *)
+Module FS := Proofs.FloatSpec.
+Theorem float_add_is_ieee : forall x y : Bits.binary64, FS.is_finite x = true -> FS.is_finite y = true ->
+  let r := Bits.b64_of_bits (f_add (Bits.bits_of_b64 x) (Bits.bits_of_b64 y)) in
+  (Rdefinitions.Rlt (Rbasic_fun.Rabs (FS.rnd (Rdefinitions.Rplus (FS.B2R x) (FS.B2R y)))) FS.fmax ->
+     FS.is_finite r = true /\ FS.B2R r = FS.rnd (Rdefinitions.Rplus (FS.B2R x) (FS.B2R y))) /\
+  (Rdefinitions.Rle FS.fmax (Rbasic_fun.Rabs (FS.rnd (Rdefinitions.Rplus (FS.B2R x) (FS.B2R y)))) ->
+     r = FS.Binf (Raux.Rlt_bool (Rdefinitions.Rplus (FS.B2R x) (FS.B2R y)) (Rdefinitions.IZR 0)) /\ FS.Bsign x = FS.Bsign y).
+Proof. exact FS.f_add_b64. Qed.
+Theorem float_mul_is_ieee : forall x y : Bits.binary64, FS.is_finite x = true -> FS.is_finite y = true ->
+  let r := Bits.b64_of_bits (f_mul (Bits.bits_of_b64 x) (Bits.bits_of_b64 y)) in
+  (Rdefinitions.Rlt (Rbasic_fun.Rabs (FS.rnd (Rdefinitions.Rmult (FS.B2R x) (FS.B2R y)))) FS.fmax ->
+     FS.is_finite r = true /\ FS.B2R r = FS.rnd (Rdefinitions.Rmult (FS.B2R x) (FS.B2R y)) /\ FS.Bsign r = xorb (FS.Bsign x) (FS.Bsign y)) /\
+  (Rdefinitions.Rle FS.fmax (Rbasic_fun.Rabs (FS.rnd (Rdefinitions.Rmult (FS.B2R x) (FS.B2R y)))) ->
+     r = FS.Binf (Raux.Rlt_bool (Rdefinitions.Rmult (FS.B2R x) (FS.B2R y)) (Rdefinitions.IZR 0))).
+Proof. exact FS.f_mul_b64. Qed.
+Theorem float_compare_is_real_order : forall x y : Bits.binary64, FS.is_finite x = true -> FS.is_finite y = true ->
+  f_cmp (Bits.bits_of_b64 x) (Bits.bits_of_b64 y) = Some (Raux.Rcompare (FS.B2R x) (FS.B2R y)).
+Proof. exact FS.f_cmp_b64. Qed.
+Theorem int_to_float_is_rounding : forall z, in64 z ->
+  FS.is_finite (Bits.b64_of_bits (f_of_Z z)) = true /\ FS.B2R (Bits.b64_of_bits (f_of_Z z)) = FS.rnd (Rdefinitions.IZR z).
+Proof. exact FS.f_of_Z_int64. Qed.
+Theorem int_to_float_exact_below_2_53 : forall z, (Z.abs z <= 2 ^ 53)%Z ->
+  FS.is_finite (Bits.b64_of_bits (f_of_Z z)) = true /\ FS.B2R (Bits.b64_of_bits (f_of_Z z)) = Rdefinitions.IZR z.
+Proof. exact FS.f_of_Z_exact. Qed.
+(* "converting an integer operand to float when the other is a float" *)
+Theorem mixed_operands_convert_the_integer : forall op f k i fl g, FS.fop op = Some f ->
+  num_bin op (VInt k i) (VFloat fl g) = Ok (VFloat false (f (f_of_Z (wrap64 i)) g)) /\
+  num_bin op (VFloat fl g) (VInt k i) = Ok (VFloat false (f g (f_of_Z (wrap64 i)))) /\
+  bin_op op (VInt k i) (VFloat fl g) = Ok (VFloat false (f (f_of_Z (wrap64 i)) g)) /\
+  bin_op op (VFloat fl g) (VInt k i) = Ok (VFloat false (f g (f_of_Z (wrap64 i)))).
+Proof. exact FS.mixed_arith_spec. Qed.
+(* decimal float literals are correctly rounded (one rounding, via a sticky bit) *)
+Theorem float_literal_correctly_rounded : forall m e10 : Z, (0 <= m)%Z ->
+  let v := Rdefinitions.Rmult (Rdefinitions.IZR m) (Rfunctions.powerRZ (Rdefinitions.IZR 10) e10) in
+  let r := Bits.b64_of_bits (f_of_dec m e10) in
+  (Rdefinitions.Rlt (Rbasic_fun.Rabs (FS.rnd v)) FS.fmax -> FS.is_finite r = true /\ FS.B2R r = FS.rnd v) /\
+  (Rdefinitions.Rle FS.fmax (Rbasic_fun.Rabs (FS.rnd v)) -> r = FS.Binf false).
+Proof. exact FS.f_of_dec_spec. Qed.
+Print Assumptions float_add_is_ieee.
+Print Assumptions float_mul_is_ieee.
+Print Assumptions float_compare_is_real_order.
+Print Assumptions int_to_float_is_rounding.
+Print Assumptions mixed_operands_convert_the_integer.
+Print Assumptions float_literal_correctly_rounded.
+(* sub / div / neg, special values (x/0, 0/0, inf-inf, NaN propagation), comparisons with NaN and infinities, mixed
+   comparisons against the reals: Proofs/FloatSpec.v (f_sub_spec, f_div_spec, f_div_by_zero, f_nan_propagates, mixed_rel_real) *)
 
 (* Non-vacuity: 1 + 2 * 3 < 8 && !x  is well-formed without any parenthesis and round-trips *)
 Close Scope Z_scope.
